@@ -5,6 +5,10 @@ from vf import explore as XP
 from .kscalar import run_kani_only
 from . import c07 as C07
 from .common import run_jobs
+PROG_SPEC = None
+def task(item):
+    from . import serdejob as SJ
+    return SJ.conv_job(PROG_SPEC, item[0], item[1], item[2])
 NAMES = ['c17_spec_i8', 'c17_spec_i16', 'c17_spec_i32', 'c17_spec_i64', 'c17_spec_isize', 'c17_spec_u8', 'c17_spec_u16', 'c17_spec_u32', 'c17_spec_u64', 'c17_spec_usize', 'c17_spec_f32', 'c17_spec_f64', 'c17_spec_bool_unit_str']
 def run(run):
     # ---- sync: same outcomes on the Arc build for the whole compliance suite (through the encoder) and the slice kernel
@@ -13,10 +17,18 @@ def run(run):
     run.extra['sync_build'] = {'compliance_cases_reproduced_on_sync_mir': tot['passed'], 'of': tot['total']}
     if tot['passed'] != tot['total']:
         run.cands.append({'key': 'c17:sync-differs', 'what': f"the sync build does not reproduce {tot['total'] - tot['passed']} compliance outcomes", 'witness': tot['failed'][:3], 'request': {'op': 'none'}, 'expected': 'same outcomes'})
-    C07.PROG = prog; C07.SEED = run.seed
     run.paths += tot['passed']; run.queries += 1
+    # ---- specialized: the fast-path conversions of serde_json::Value / &Value (and the TryFrom impls they use) on symbolic Value trees, from the MIR built with the feature
+    global PROG_SPEC
+    PROG_SPEC = run.program(features=('specialized',)); XP.init_decls(PROG_SPEC)
+    run.native('dev')
+    jobs = [(e, d, run.deadline) for e in ('to_jmespath_value', 'to_jmespath_ref', 'try_from_owned', 'try_from_ref') for d in (1, 2)]
+    run_jobs(run, jobs, task, 'mirsym (--features specialized): specialised Value conversions vs the JSON image')
+    for c in run.cands:
+        if c['key'].startswith('c08:'): c['key'] = 'c17:' + c['key'][4:]
     run_kani_only(run, NAMES,
         bounds={'specialized': 'x.to_jmespath() == Variable::from_serializable(x) for EVERY x of i8..i64, isize, u8..u64, usize, finite f32/f64, bool, (), and ASCII &str of <= 2 bytes (crate built with --features specialized)',
+                'specialized (M)': 'ToJmespath for serde_json::Value and &Value and the TryFrom impls behind them on solver-chosen Value trees (depth 1 with fully symbolic numbers, depth 2 structure), MIR generated with --features specialized',
                 'sync': 'MIR regenerated with --features sync: the compliance suite (a rotating quarter in quick) reproduces the same outcomes through the encoder'},
-        outside=['equivalence of whole compile/search runs between separately built binaries is a differential test, not a solver query: not claimed', 'Value / Variable / Rcvar specialisations on containers', 'non-finite floats (the two paths differ by design: error vs null)'],
+        outside=['equivalence of whole compile/search runs between separately built binaries is a differential test, not a solver query: not claimed', 'Variable / Rcvar / String specialisations (identity wrappers), 'non-finite floats (the two paths differ by design: error vs null)'],
         assumes=['Rc::drop_slow and fmt::format are stubbed'], features=('specialized',), keyprefix='c17')
